@@ -1,4 +1,5 @@
 import RdpModel.Lemmas.FastPath
+import RdpModel.Lemmas.GlobalTotal
 /-
   C10 — Every bitmap rectangle the server sends reaches the application exactly once.
 -/
@@ -88,6 +89,20 @@ theorem c10_exactly_once (c : GClient) (hs : c.state = .data) (flags : Nat) (us 
     (step c (.fast flags (encodePdu us))).client = c := by
   unfold step
   simp only [hs, read_pdu us h, fpLoopAcc_upds us h hp [], List.nil_append, and_self]
+
+/-- the pointer-parse hypothesis holds for every list of updates (totality of `read` on
+    closure-safe templates, Msg/Total.lean) -/
+theorem pointerParseSafe_all (us : List Update) : PointerParseSafe us :=
+  fun d _ p => readAll_noPanic _ safe_colorPointer d p
+
+/-- `c10_exactly_once` with the hypothesis discharged: the full statement. -/
+theorem c10_exactly_once_full (c : GClient) (hs : c.state = .data) (flags : Nat) (us : List Update)
+    (h : ∀ u ∈ us, UpdInRange u) :
+    (step c (.fast flags (encodePdu us))).events = (rectsOf us).map toEv ∧
+    (step c (.fast flags (encodePdu us))).res = .ok () ∧
+    (step c (.fast flags (encodePdu us))).sent = [] ∧
+    (step c (.fast flags (encodePdu us))).client = c :=
+  c10_exactly_once c hs flags us h (pointerParseSafe_all us)
 
 /-- non-vacuity: a PDU with a pointer update between two bitmap updates (one rectangle
     with a compression header, one without) meets the hypotheses -/
